@@ -1378,6 +1378,10 @@ func SelectExpr(query *Query, current Map, expr *sqlparser.SelectExprs, opts ...
 				if len(expr.As.String()) > 0 {
 					name = expr.As.String()
 				}
+				// as for the star: the marker is not a column of the result
+				if name == "<-" {
+					continue
+				}
 				// Async functions return pointers
 				// It's a good idea to convert them back to value types
 				if valueRaw, ok := valueRaw.(*any); ok {
